@@ -579,11 +579,37 @@ func PayloadAdvances(fn *ssa.Function, data *ssa.Parameter) []PayloadAdvance {
 			if !toPayload {
 				continue
 			}
-			pa := PayloadAdvance{At: sl, N: sl.Low, Taint: tainted(sl.Low, 0)}
-			pa.LB = fi.intLB(sl.Low, b, 0)
+			// a bound kept in a struct field that is stored exactly once in this function: use the stored value
+			nv, nb := sl.Low, b
+			for hop := 0; hop < 3; hop++ {
+				sv, sb, ok := singleFieldStore(fn, nv)
+				if !ok {
+					break
+				}
+				nv, nb = sv, sb
+			}
+			pa := PayloadAdvance{At: sl, N: nv, Taint: taintedFwd(fn, nv, 0)}
+			pa.LB = fi.intLB(nv, nb, 0)
 			fi.ignoreWrap = true
-			pa.LBNoWrap = fi.intLB(sl.Low, b, 0)
+			pa.LBNoWrap = fi.intLB(nv, nb, 0)
 			fi.ignoreWrap = false
+			if nv != sl.Low {
+				// tests of the field itself: dominating ones give a lower bound, others make the verdict undecided
+				if ld, ok := stripConv(sl.Low).(*ssa.UnOp); ok {
+					if fa, ok := ld.X.(*ssa.FieldAddr); ok {
+						lb, corr := fieldLowerBound(fn, fa, b)
+						if lb > pa.LB {
+							pa.LB = lb
+						}
+						if lb > pa.LBNoWrap {
+							pa.LBNoWrap = lb
+						}
+						if corr {
+							pa.AltArith = true
+						}
+					}
+				}
+			}
 			// leaves of n
 			leaves := map[ssa.Value]bool{}
 			var collect func(v ssa.Value, d int)
@@ -604,7 +630,7 @@ func PayloadAdvances(fn *ssa.Function, data *ssa.Parameter) []PayloadAdvance {
 					leaves[v] = true
 				}
 			}
-			collect(sl.Low, 0)
+			collect(nv, 0)
 			for l := range leaves {
 				if _, isPhi := l.(*ssa.Phi); isPhi {
 					pa.Loop = true
@@ -667,3 +693,444 @@ func PayloadAdvances(fn *ssa.Function, data *ssa.Parameter) []PayloadAdvance {
 // ViaLoad reports whether the slice value's provenance chain goes through a
 // load from memory (a struct field or a spilled local).
 func ViaLoad(v ssa.Value) bool { return chainOf(v).viaLoad }
+
+// NarrowOp is an addition, multiplication or left shift evaluated in uint8 or
+// uint16 whose operands are not bounded well enough to exclude wrap-around,
+// and whose result is used as a length: a slice bound, an index, an operand
+// of a comparison with len(), or (through a struct field written and read in
+// the same function) one of those.
+type NarrowOp struct {
+	At       *ssa.BinOp
+	Use      ssa.Instruction
+	What     string
+	Definite bool   // the wrapped value is the high bound of a slice whose constant low bound it then undercuts
+	Witness  string // a field value that triggers it
+}
+
+// fieldUB: upper bound of a value that is a load of a struct field, taken
+// from the stores to that field in the same function (all of them must be
+// bounded); -1 when unknown.
+func (fi *fnInfo) fieldUB(v ssa.Value, ctx *ssa.BasicBlock) int {
+	ld, ok := stripConv(v).(*ssa.UnOp)
+	if !ok || ld.Op != token.MUL {
+		return -1
+	}
+	fa, ok := ld.X.(*ssa.FieldAddr)
+	if !ok {
+		return -1
+	}
+	best, n := -1, 0
+	for _, b := range fi.fn.Blocks {
+		for _, ins := range b.Instrs {
+			st, ok := ins.(*ssa.Store)
+			if !ok {
+				continue
+			}
+			f2, ok := st.Addr.(*ssa.FieldAddr)
+			if !ok || f2.Field != fa.Field || !types.Identical(f2.X.Type(), fa.X.Type()) {
+				continue
+			}
+			n++
+			u := fi.intUB(st.Val, b, 0)
+			if u < 0 {
+				return -1
+			}
+			if u > best {
+				best = u
+			}
+		}
+	}
+	if n == 0 {
+		best = -1
+	}
+	// dominating tests of the same field against a constant
+	for _, dc := range domConds(ctx) {
+		bo, ok := dc[0].(*ssa.BinOp)
+		if !ok {
+			continue
+		}
+		truth := dc[1].(bool)
+		l2, ok := stripConv(bo.X).(*ssa.UnOp)
+		if !ok || l2.Op != token.MUL {
+			continue
+		}
+		f2, ok := l2.X.(*ssa.FieldAddr)
+		if !ok || f2.Field != fa.Field || !types.Identical(f2.X.Type(), fa.X.Type()) {
+			continue
+		}
+		k, ok := constInt(bo.Y)
+		if !ok {
+			continue
+		}
+		u := -1
+		switch {
+		case bo.Op == token.GTR && !truth, bo.Op == token.LEQ && truth:
+			u = k
+		case bo.Op == token.GEQ && !truth, bo.Op == token.LSS && truth:
+			u = k - 1
+		case bo.Op == token.EQL && truth:
+			u = k
+		}
+		if u >= 0 && (best < 0 || u < best) {
+			best = u
+		}
+	}
+	return best
+}
+
+func NarrowLengthOps(fn *ssa.Function, root *RootInfo) []NarrowOp {
+	if len(fn.Blocks) == 0 {
+		return nil
+	}
+	fi := infoFor(fn, root)
+	live := LiveBlocks(fn)
+	var out []NarrowOp
+	isLenCall := func(v ssa.Value) bool {
+		c, ok := stripConv(v).(*ssa.Call)
+		if !ok {
+			return false
+		}
+		b, ok := c.Call.Value.(*ssa.Builtin)
+		return ok && (b.Name() == "len" || b.Name() == "cap")
+	}
+	// lengthUse: how v is used as a length (directly or through widening, +/-/* constants, phis, one field round trip)
+	var lengthUse func(v ssa.Value, depth int, seen map[ssa.Value]bool) (ssa.Instruction, string)
+	lengthUse = func(v ssa.Value, depth int, seen map[ssa.Value]bool) (ssa.Instruction, string) {
+		if depth > 6 || seen[v] || v.Referrers() == nil {
+			return nil, ""
+		}
+		seen[v] = true
+		for _, r := range *v.Referrers() {
+			switch x := r.(type) {
+			case *ssa.Slice:
+				if x.Low == v || x.High == v {
+					return x, "slice bound"
+				}
+			case *ssa.IndexAddr:
+				if x.Index == v {
+					return x, "index"
+				}
+			case *ssa.BinOp:
+				switch x.Op {
+				case token.LSS, token.LEQ, token.GTR, token.GEQ:
+					other := x.X
+					if other == v {
+						other = x.Y
+					}
+					if isLenCall(other) {
+						return x, "comparison with len()"
+					}
+					// comparison with a length expression built from len()
+					if bo, ok := stripConv(other).(*ssa.BinOp); ok && (isLenCall(bo.X) || isLenCall(bo.Y)) {
+						return x, "comparison with len()"
+					}
+				case token.ADD, token.SUB, token.MUL:
+					if u, w := lengthUse(x, depth+1, seen); u != nil {
+						return u, w
+					}
+				}
+			case *ssa.Convert:
+				if u, w := lengthUse(x, depth+1, seen); u != nil {
+					return u, w
+				}
+			case *ssa.ChangeType:
+				if u, w := lengthUse(x, depth+1, seen); u != nil {
+					return u, w
+				}
+			case *ssa.Phi:
+				if u, w := lengthUse(x, depth+1, seen); u != nil {
+					return u, w
+				}
+			case *ssa.Store:
+				// written to a struct field and read back in this function
+				fa, ok := x.Addr.(*ssa.FieldAddr)
+				if !ok || x.Val != v {
+					continue
+				}
+				for _, b := range fn.Blocks {
+					for _, ins := range b.Instrs {
+						ld, ok := ins.(*ssa.UnOp)
+						if !ok || ld.Op != token.MUL {
+							continue
+						}
+						f2, ok := ld.X.(*ssa.FieldAddr)
+						if ok && f2.Field == fa.Field && types.Identical(f2.X.Type(), fa.X.Type()) {
+							if u, w := lengthUse(ld, depth+1, seen); u != nil {
+								return u, w + " (through field " + fa.X.Type().Underlying().(*types.Pointer).Elem().Underlying().(*types.Struct).Field(fa.Field).Name() + ")"
+							}
+						}
+					}
+				}
+			}
+		}
+		return nil, ""
+	}
+	for _, b := range fn.Blocks {
+		if !live[b] {
+			continue
+		}
+		for _, ins := range b.Instrs {
+			bo, ok := ins.(*ssa.BinOp)
+			if !ok || (bo.Op != token.ADD && bo.Op != token.MUL && bo.Op != token.SHL) {
+				continue
+			}
+			bt, ok := bo.Type().Underlying().(*types.Basic)
+			if !ok || (bt.Kind() != types.Uint8 && bt.Kind() != types.Uint16) {
+				continue
+			}
+			_, kx := constInt(bo.X)
+			_, ky := constInt(bo.Y)
+			if kx && ky {
+				continue
+			}
+			// one step from a packet value: x+k, x*k, x<<k with x read from the packet or from a layer field
+			var xv ssa.Value
+			if ky {
+				xv = bo.X
+			} else if kx {
+				xv = bo.Y
+			} else {
+				continue
+			}
+			direct := false
+			switch y := stripConv(xv).(type) {
+			case *ssa.UnOp:
+				if y.Op == token.MUL {
+					switch y.X.(type) {
+					case *ssa.IndexAddr, *ssa.FieldAddr:
+						direct = true
+					}
+				}
+			case *ssa.Call:
+				if f := y.Call.StaticCallee(); f != nil && f.Pkg != nil && f.Pkg.Pkg.Path() == "encoding/binary" {
+					direct = true
+				}
+			}
+			if !direct {
+				continue
+			}
+			m := typeMax(bo.Type())
+			ub := fi.intUB(xv, b, 0)
+			if fu := fi.fieldUB(xv, b); fu >= 0 && (ub < 0 || fu < ub) {
+				ub = fu
+			}
+			if ub < 0 {
+				ub = m
+			}
+			k := 0
+			if ky {
+				k, _ = constInt(bo.Y)
+			} else {
+				k, _ = constInt(bo.X)
+			}
+			wraps := false
+			switch bo.Op {
+			case token.ADD:
+				wraps = ub+k > m
+			case token.MUL:
+				wraps = k != 0 && ub > m/k
+			case token.SHL:
+				wraps = ky && k >= 0 && k < 16 && ub > m>>uint(k)
+			}
+			if !wraps {
+				continue
+			}
+			use, what := lengthUse(bo, 0, map[ssa.Value]bool{})
+			if use == nil {
+				continue
+			}
+			no := NarrowOp{At: bo, Use: use, What: what}
+			// definite: x[lo : k+field] with constant lo >= 1, addition, and the wrapped sum used directly as the high bound
+			if sl, ok := use.(*ssa.Slice); ok && bo.Op == token.ADD && sl.High != nil && stripConv(sl.High) == ssa.Value(bo) && sl.Low != nil {
+				if lo, ok := constInt(sl.Low); ok && lo >= 1 && ub >= m+1-k {
+					no.Definite = true
+					no.Witness = fmt.Sprintf("field value %d makes the high bound 0, below the low bound %d", m+1-k, lo)
+				}
+			}
+			out = append(out, no)
+			continue
+		}
+	}
+	return out
+}
+
+// singleFieldStore: v is (a conversion of) a load of a struct field that is
+// stored exactly once in fn; returns the stored value and the block of the store.
+func singleFieldStore(fn *ssa.Function, v ssa.Value) (ssa.Value, *ssa.BasicBlock, bool) {
+	ld, ok := stripConv(v).(*ssa.UnOp)
+	if !ok || ld.Op != token.MUL {
+		return nil, nil, false
+	}
+	fa, ok := ld.X.(*ssa.FieldAddr)
+	if !ok {
+		return nil, nil, false
+	}
+	var val ssa.Value
+	var blk *ssa.BasicBlock
+	n := 0
+	for _, b := range fn.Blocks {
+		for _, ins := range b.Instrs {
+			st, ok := ins.(*ssa.Store)
+			if !ok {
+				continue
+			}
+			f2, ok := st.Addr.(*ssa.FieldAddr)
+			if ok && f2.Field == fa.Field && types.Identical(f2.X.Type(), fa.X.Type()) {
+				n++
+				val, blk = st.Val, b
+			}
+		}
+	}
+	if n != 1 || !blk.Dominates(ld.Block()) {
+		return nil, nil, false
+	}
+	return val, blk, true
+}
+
+// taintedFwd: tainted, looking through struct fields stored once in fn.
+func taintedFwd(fn *ssa.Function, v ssa.Value, depth int) bool {
+	if depth > 8 {
+		return false
+	}
+	if tainted(v, 0) {
+		return true
+	}
+	switch x := v.(type) {
+	case *ssa.Convert:
+		return taintedFwd(fn, x.X, depth+1)
+	case *ssa.ChangeType:
+		return taintedFwd(fn, x.X, depth+1)
+	case *ssa.BinOp:
+		return taintedFwd(fn, x.X, depth+1) || taintedFwd(fn, x.Y, depth+1)
+	case *ssa.UnOp:
+		if sv, _, ok := singleFieldStore(fn, x); ok {
+			return taintedFwd(fn, sv, depth+1)
+		}
+	}
+	return false
+}
+
+// fieldLowerBound: lower bound on a struct field established by dominating
+// tests of loads of that field against constants, and whether some test of
+// the field exists whose outcome is not known at block b.
+func fieldLowerBound(fn *ssa.Function, fa *ssa.FieldAddr, b *ssa.BasicBlock) (int, bool) {
+	isF := func(v ssa.Value) bool {
+		l2, ok := stripConv(v).(*ssa.UnOp)
+		if !ok || l2.Op != token.MUL {
+			return false
+		}
+		f2, ok := l2.X.(*ssa.FieldAddr)
+		return ok && f2.Field == fa.Field && types.Identical(f2.X.Type(), fa.X.Type())
+	}
+	lb := -1 << 30
+	used := map[ssa.Value]bool{}
+	for _, dc := range domConds(b) {
+		cond := dc[0].(ssa.Value)
+		bo, ok := cond.(*ssa.BinOp)
+		if !ok {
+			continue
+		}
+		truth := dc[1].(bool)
+		if !isF(bo.X) && !isF(bo.Y) {
+			continue
+		}
+		used[cond] = true
+		if !isF(bo.X) {
+			continue
+		}
+		k, ok := constInt(bo.Y)
+		if !ok {
+			continue
+		}
+		v := -1 << 30
+		switch {
+		case bo.Op == token.LSS && !truth, bo.Op == token.GEQ && truth, bo.Op == token.EQL && truth:
+			v = k
+		case bo.Op == token.GTR && truth, bo.Op == token.LEQ && !truth:
+			v = k + 1
+		case bo.Op == token.NEQ && truth && k == 0:
+			v = 1
+		case bo.Op == token.EQL && !truth && k == 0:
+			v = 1
+		}
+		if v > lb {
+			lb = v
+		}
+	}
+	corr := false
+	for _, blk := range fn.Blocks {
+		if len(blk.Instrs) == 0 {
+			continue
+		}
+		iff, ok := blk.Instrs[len(blk.Instrs)-1].(*ssa.If)
+		if !ok || used[iff.Cond] {
+			continue
+		}
+		bo, ok := iff.Cond.(*ssa.BinOp)
+		if !ok || (!isF(bo.X) && !isF(bo.Y)) {
+			continue
+		}
+		// can this test be on a path to b?
+		seen := map[*ssa.BasicBlock]bool{}
+		var dfs func(x *ssa.BasicBlock) bool
+		dfs = func(x *ssa.BasicBlock) bool {
+			if x == b {
+				return true
+			}
+			if seen[x] {
+				return false
+			}
+			seen[x] = true
+			for _, s := range x.Succs {
+				if dfs(s) {
+					return true
+				}
+			}
+			return false
+		}
+		if dfs(blk) {
+			corr = true
+		}
+	}
+	return lb, corr
+}
+
+// UpperBound exposes the integer upper-bound evaluation (−1: unknown) for a
+// value at a block of fn, using the type's range, masks, shifts, remainders
+// and dominating constant comparisons.
+func UpperBound(fn *ssa.Function, v ssa.Value, at *ssa.BasicBlock) int {
+	if len(fn.Blocks) == 0 {
+		return -1
+	}
+	fi := infoFor(fn, nil)
+	ub := fi.intUB(v, at, 0)
+	// dominating comparisons of this very value with constants
+	for _, dc := range domConds(at) {
+		bo, ok := dc[0].(*ssa.BinOp)
+		if !ok {
+			continue
+		}
+		truth := dc[1].(bool)
+		if stripConv(bo.X) != stripConv(v) {
+			continue
+		}
+		k, ok := constInt(bo.Y)
+		if !ok {
+			continue
+		}
+		u := -1
+		switch {
+		case bo.Op == token.GTR && !truth, bo.Op == token.LEQ && truth, bo.Op == token.EQL && truth:
+			u = k
+		case bo.Op == token.GEQ && !truth, bo.Op == token.LSS && truth:
+			u = k - 1
+		}
+		if u >= 0 && (ub < 0 || u < ub) {
+			ub = u
+		}
+	}
+	return ub
+}
+
+// Tainted reports whether v derives from packet bytes.
+func Tainted(v ssa.Value) bool { return tainted(v, 0) }
